@@ -3,7 +3,7 @@
 A. TLC: Reload.tla exhaustive (Fresh, FaultKeeps) as the repaired code behaves; the pre-repair behaviour (F20,
    ResetOnAbsent = FALSE) and the seeded fault behaviour (FaultClears = TRUE) must both be rejected (negative controls).
 B. spec->code: `tlc -simulate` behaviours are replayed on a fresh real object (RegexList for C12, the aggregation
-   RuleManager for C16): the environment actions write / remove / restore the real file with the modification time of the
+   RuleManager for C16, the rewrite rule manager for C08): the environment actions write / remove / restore the real file with the modification time of the
    state, every Tick* is one firing of the object's own LoopingCall on a private clock (the first one is read_from()),
    TickFault makes getmtime() raise EACCES for that firing.  After every action the rules in force, observed through
    the object's public behaviour, must be the specification's `inforce`.
@@ -86,6 +86,30 @@ class AggRulesBinding(object):
     return hit[0] if len(hit) == 1 else -1
 
 
+class RewriteBinding(AggRulesBinding):
+  what = 'carbon.rewrite._RewriteRuleManager'
+
+  def __init__(self, scratch):
+    import carbon.rewrite as m
+    self.mod = m
+    self.obj = m._RewriteRuleManager()
+
+  def body(self, b):
+    return '# rewrite rules %d\n[pre]\nbody%d = got%d\n' % (b, b, b)
+
+  def inforce(self):
+    hit = []
+    for b in (1, 2, 3):
+      name = 'x.body%d.y' % b
+      for rule in self.obj.rules('pre'):
+        name = rule.apply(name)
+      if name == 'x.got%d.y' % b:
+        hit.append(b)
+    if not hit:
+      return 0 if not self.obj.rules('pre') else -1
+    return hit[0] if len(hit) == 1 else -1
+
+
 def _failing(p):
   raise OSError(errno.EACCES, os.strerror(errno.EACCES), p)
 
@@ -147,8 +171,8 @@ def replay_one(binding_cls, scratch, beh, idx):
   return None, drift, len(script)
 
 
-def check(ctx, kind):
-  binding = dict(regexlist=RegexListBinding, aggrules=AggRulesBinding)[kind]
+def check(ctx, kind, as_drift=False):
+  binding = dict(regexlist=RegexListBinding, aggrules=AggRulesBinding, rewrite=RewriteBinding)[kind]
   invs = ['TypeOK', 'Fresh']
   # A. the model
   consts = dict(CONSTS, ResetOnAbsent='TRUE', FaultClears='FALSE')
@@ -180,7 +204,9 @@ def check(ctx, kind):
       ctx.nontriv(('reload', i))
     for dr in drift[:1]:
       ctx.note_drift('reload: ' + dr)
-    if bad:
+    if bad and as_drift:
+      ctx.note_drift('reload (%s): in force %r, specification %r after %s' % (binding.what, bad['observed_in_force'], bad['specification'], bad['script']))
+    elif bad:
       ctx.violation('the list / rules in force after a history of file changes and re-read ticks are not those of the file '
                     '(Reload.tla, replayed on %s)' % binding.what, bad, signature='reload')
   missing = {'TickAbsent', 'TickUnchanged', 'TickLoad', 'TickFault', 'Rewrite', 'Restore', 'Remove'} - kinds
